@@ -286,6 +286,12 @@ def finish(prop, tier, seed, merged, level, rule, assumptions, wall, n_shards, e
 
     lines = []
     replays = []
+    for old in os.listdir(REPLAY_DIR):
+        if old.startswith(prop + "-"):
+            try:
+                os.unlink(os.path.join(REPLAY_DIR, old))
+            except OSError:
+                pass
     for v in merged["violations"][:MAX_REPLAYS]:
         payload = {"property": prop, "tier": tier, "seed": seed, "discrepancy": v["disc"], "replay": v["replay"]}
         digest = hashlib.md5(json.dumps(payload, sort_keys=True, default=repr).encode()).hexdigest()[:12]
